@@ -163,7 +163,11 @@ RegisterHttp(s, a, eph, en, w) == DoUpdate(s, a, HttpInst(eph, en, w), NoTag, FA
 RegisterGrpc(s, a, c, eph) == DoUpdate(s, a, GrpcInst(c, eph, TRUE, 1), NoTag, FALSE, "register_grpc")
 \* console / openapi partial update: only the weight (tag.weight), request carries default ephemeral = TRUE
 UpdateWeight(s, a, w) == Has(s, a) /\ DoUpdate(s, a, HttpInst(TRUE, TRUE, w), [BeatTag EXCEPT !.weight = TRUE], FALSE, "update_weight")
-Beat(s, a) == DoUpdate(s, a, HttpInst(TRUE, TRUE, 1), BeatTag, FALSE, "beat")
+\* a heart-beat (tag selects nothing).  eph is the ephemeral flag AS THE REQUEST SPELLS IT: the beat handler copies it into
+\* the instance it builds, and although the tag never lets it change the stored kind, it decides whether the beat is adopted by
+\* the gRPC connection that owns the address (keepOwner asks for an ephemeral request) - a beat that says ephemeral=false
+\* over a connection-owned instance takes the instance away from its connection
+Beat(s, a, eph) == DoUpdate(s, a, HttpInst(eph, TRUE, 1), BeatTag, FALSE, "beat")
 SyncUpdate(s, a, n, grpc, h) == DoUpdate(s, a, SyncInst(n, grpc, h), NoTag, TRUE, "sync_update")
 
 \* ------------------------------------------------------------------ the same operations as the ENTRY POINTS build them
@@ -339,7 +343,7 @@ Next ==
     \/ \E s \in Svcs, a \in Addrs, eph \in BOOLEAN, en \in BOOLEAN : RegisterHttp(s, a, eph, en, 1)
     \/ \E s \in Svcs, a \in Addrs, c \in Conns, eph \in BOOLEAN : RegisterGrpc(s, a, c, eph)
     \/ \E s \in Svcs, a \in Addrs : UpdateWeight(s, a, 2)
-    \/ \E s \in Svcs, a \in Addrs : Beat(s, a)
+    \/ \E s \in Svcs, a \in Addrs, eph \in BOOLEAN : Beat(s, a, eph)
     \/ \E s \in Svcs, a \in Addrs, n \in Nodes, g \in BOOLEAN, h \in BOOLEAN : SyncUpdate(s, a, n, g, h)
     \/ \E s \in Svcs, a \in Addrs, c \in Clients \cup {""} : Deregister(s, a, c)
     \/ \E c \in Clients : Disconnect(c)
